@@ -71,6 +71,15 @@ CLAIMED = {
             'TLC explores JsCsvReader (producer/consumer machine: OnData(n) with any n, OnEnd, GetRecord in any interleaving; streaming decoder pending bytes, partial line, CR flag, multi-line aggregator, record queue, stored exception) for every byte string within the bound and proves the consumer receives RefRead(Decode(bytes)) and that valid UTF-8 is never rejected; every emitted case is delivered to the real rbql-js CSVRecordIterator through a hand-pushed Readable under all 2^(n-1) partitions x {consumer first, producer first, all input before the first get_record} and in bulk mode; five files > 64 KiB with a multi-byte character / CRLF / quoted multi-line field straddling byte 65536 go through fs.createReadStream.',
             'Exhaustive within the bound (quick: <= 4 bytes over 6 ASCII symbols, <= 3 over 13 byte values; thorough <= 6 / <= 4); single-character delimiter and comment prefix.',
             'TLA+ producer/consumer reader machine model-checked by TLC; exhaustive partition x interleaving replay into rbql-js'),
+
+    'C13': ('5 C13, 3.11',
+            'TLC computes Ref and its text rendering (Stringify: ints in decimal, None as empty) for type-agnostic queries over rectangular string tables (fields, literals, concatenation, comparisons, star forms, ORDER / DISTINCT / TOP, COUNT + GROUP BY, EXCEPT, UPDATE, joins, failing queries) x header yes/no; every case is run through query (recording iterator/writer), query_table, query_csv (files), python -m rbql from the tree (file->file and stdin->stdout, out-format input / csv / tsv; every k-th case), query_dataframe (pandas) and the sqlite iterator + query_sqlite_to_csv; each result is compared with the TLA+ value (hence with each other); command-line runs are judged by the CliOk monitor of Frontends.tla through TLC (exit 0 and only table data on stdout and only Warning lines on stderr on success; non-zero exit and an Error [type] line on failure).',
+            'Cell strings are CSV-inert (letters, digits), so output text is split on the delimiter without dialect logic in the harness; pandas and sqlite need column names (header cases only); the adapters are exercised by replay, not modelled internally.',
+            'TLA+ engine spec + front-end monitors checked by TLC; one TLC-computed expectation replayed through seven entry points; TLC-judged command-line outcomes'),
+    'C17': ('5 C17, 3.10',
+            'TLC checks Like.tla: a position-set automaton stepping over the text equals the declarative LikeRef for every pattern/text pair of length <= 4 (quick) / <= 5 (thorough) over {%, _, x, y}, with an invariant on every intermediate state set; every pair is instantiated with ordered pairs from 23 characters (all regex metacharacters, quotes, space, non-ASCII, astral) in rotation and evaluated as `select like(a1, a2)` through query_table of rbql-py and rbql-js and through like_to_regex + re; random longer Unicode pairs evaluated by both ports are judged by TLC (LikeTrace).',
+            'Single-line texts (as quantified); characters other than % and _ are treated as interchangeable in the exhaustive part (the rotation and the random traces exercise that).',
+            'TLA+ LIKE automaton vs declarative matcher model-checked by TLC; exhaustive replay with metacharacter rotation; TLC trace validation'),
 }
 
 PENDING_REASON = 'check not built yet in this session (specification work in progress; see DESIGN.md section 5 for the plan)'
